@@ -86,7 +86,7 @@ var (
 	badNames  = []string{"0a", ""}
 	eqValues  = []string{"1", "2", "x1", ""}
 	badValue  = "@@badutf8" // stands for the byte 0xff (JSON cannot carry it); see unq
-	rePats    = []string{"1|2", ".*", "x.+", "", "[12]?"}
+	rePats    = []string{"1|2", ".*", "x.+", "", "[12]?", "1"}
 	badPats   = []string{"(", "a{2,1}"}
 	lblValues = []string{"1", "2", "x1"}
 	comments  = []string{"c", "maintenance", "", "é", strings.Repeat("long comment ", 12)}
@@ -189,17 +189,18 @@ func coqAnn(m map[string]string) string {
 }
 
 type runner struct {
-	t     *testing.T
-	c     *Case
-	s     *silence.Silences
-	api   *v2.API
-	canon map[string]string // uuid -> "#k"
-	real  map[string]string // "#k" -> uuid
-	bcast [][]byte
-	hist  []string
-	tags  map[string]int
-	viol  []vh.Violation
-	ret   time.Duration
+	t         *testing.T
+	c         *Case
+	s         *silence.Silences
+	api       *v2.API
+	canon     map[string]string // uuid -> "#k"
+	real      map[string]string // "#k" -> uuid
+	bcast     [][]byte
+	hist      []string
+	tags      map[string]int
+	viol      []vh.Violation
+	ret       time.Duration
+	firstSets map[string]string // canonical id -> matcher sets when first seen
 }
 
 func (r *runner) cid(id string) string {
@@ -378,6 +379,15 @@ func (r *runner) observe(now int64) view {
 	v := view{sils: map[string]*pb.Silence{}}
 	parts := make([]string, len(sils))
 	for i, s := range sils {
+		// history is immutable: the matchers reported for an id are the same at all later instants
+		if r.firstSets == nil {
+			r.firstSets = map[string]string{}
+		}
+		if first, ok := r.firstSets[r.cid(s.Id)]; !ok {
+			r.firstSets[r.cid(s.Id)] = coqSets(s.MatcherSets)
+		} else if first != coqSets(s.MatcherSets) {
+			r.violate("stored-matchers-changed", fmt.Sprintf("the matchers of %s changed under its id: %s -> %s", r.cid(s.Id), first, coqSets(s.MatcherSets)))
+		}
 		parts[i] = r.coqSil(s)
 		v.order = append(v.order, r.cid(s.Id))
 		v.sils[r.cid(s.Id)] = s
@@ -996,8 +1006,84 @@ func nonEmptyMat(g *vh.Rand) Mat {
 	return vh.Pick(g, []Mat{{0, "a", "1"}, {0, "b", "2"}, {1, "a", "1|2"}, {1, "b", "x.+"}, {2, "a", "1"}, {3, "b", "1|2"}, {0, "a", "x1"}})
 }
 
+// lookalikes: families of matcher configurations that are structurally DIFFERENT but look alike — they collide
+// under a flattened rendering (name+operator+value joined by commas, as the log line prints them), under
+// regrouping into OR-ed sets, under reordering, or differ only in the operator / in quoting characters.
+// canUpdate must treat any two distinct members as different matchers (history rewrite, new id).
+var lookalikes = [][][][]Mat{
+	{ // all print as a=~x.+
+		{{{0, "a", "~x.+"}}}, {{{1, "a", "x.+"}}},
+	},
+	{ // all print as a=1,b=2 (comma / equals inside a value, one set vs two sets, reordered)
+		{{{0, "a", "1,b=2"}}}, {{{0, "a", "1"}, {0, "b", "2"}}}, {{{0, "a", "1"}}, {{0, "b", "2"}}},
+		{{{0, "b", "2"}, {0, "a", "1"}}}, {{{0, "b", "2"}}, {{0, "a", "1"}}},
+	},
+	{ // same name and value, different operator
+		{{{0, "a", "1"}}}, {{{2, "a", "1"}}}, {{{1, "a", "1"}}}, {{{3, "a", "1"}}},
+	},
+	{ // print as a!=1,b=~x.+ / operators glued to values
+		{{{2, "a", "1"}, {1, "b", "x.+"}}}, {{{2, "a", "1,b=~x.+"}}}, {{{2, "a", "1"}}, {{1, "b", "x.+"}}}, {{{2, "a", "1"}, {0, "b", "~x.+"}}},
+	},
+	{ // quoting characters, braces and spaces
+		{{{0, "a", "1\",b=\"2"}}}, {{{0, "a", "1"}, {0, "b", "2"}}}, {{{0, "a", "{1}"}}}, {{{0, "a", "{1} "}}}, {{{0, "a", " {1}"}}},
+		{{{0, "a", "1"}, {0, "b", "2 "}}}, {{{0, "a", "1}, {b=2"}}},
+	},
+}
+
+func sameMats(a, b [][]Mat) bool {
+	if len(a) != len(b) {
+		return false
+	}
+	for i := range a {
+		if len(a[i]) != len(b[i]) {
+			return false
+		}
+		for j := range a[i] {
+			if a[i][j] != b[i][j] {
+				return false
+			}
+		}
+	}
+	return true
+}
+
+// alike returns the other members of the family the configuration belongs to (single-set members only if one).
+func alike(sets [][]Mat, one bool) [][][]Mat {
+	for _, fam := range lookalikes {
+		for _, m := range fam {
+			if !sameMats(m, sets) {
+				continue
+			}
+			var out [][][]Mat
+			for _, o := range fam {
+				if !sameMats(o, sets) && (!one || len(o) == 1) {
+					out = append(out, o)
+				}
+			}
+			return out
+		}
+	}
+	return nil
+}
+
+func cloneMats(a [][]Mat) [][]Mat {
+	out := make([][]Mat, len(a))
+	for i := range a {
+		out[i] = append([]Mat(nil), a[i]...)
+	}
+	return out
+}
+
 func genSets(g *vh.Rand, api bool) (sets [][]Mat, kind string) {
 	k := g.Intn(32)
+	if k >= 4 && k < 11 { // a member of a look-alike family
+		for {
+			m := vh.Pick(g, vh.Pick(g, lookalikes))
+			if !api || len(m) == 1 {
+				return cloneMats(m), "lookalike"
+			}
+		}
+	}
 	nsets := 1
 	if !api && g.Chance(1, 4) {
 		nsets = 2
@@ -1098,6 +1184,12 @@ func (r *runner) gen(g *vh.Rand, v view, now int64, created []string) Op {
 		}
 		sec := floorSec(s.Start) * 1e9
 		edits := g.Range(1, 2)
+		if alt := alike(s.Sets, op.Kind == "apipost"); len(alt) > 0 && g.Chance(2, 3) {
+			// adversarial edit: only the matchers change, into something that looks the same
+			s.Sets = cloneMats(vh.Pick(g, alt))
+			r.tags["edit-lookalike-matchers"]++
+			edits = g.Intn(2)
+		}
 		for e := 0; e < edits; e++ {
 			switch g.Intn(7) {
 			case 0:
